@@ -34,6 +34,8 @@ func Main(args []string) int {
 		return runGen(cfg, rest, prop)
 	case "TRANSPARENCY":
 		return runTransparency(cfg, rest)
+	case "WORLDDUMP":
+		return runWorldDump(cfg, rest)
 	case "GENDUMP":
 		return runGenDump(cfg, rest)
 	case "GENSTAT":
